@@ -304,3 +304,107 @@ def rule_reentrant(P) -> RuleResult:
             res.ok({'attribute': f'self.{attr}', 'scope_owner': sel.qualname, 'restored_on': 'every exit, for every kind of FROM clause, '
                     'normal and exceptional'})
     return res
+
+
+# ----------------------------------------------------------------------
+# R-ONCEPERROW (C12, C20): running state of the row context is updated exactly once per row
+
+MUTATORS = ('add_position', 'add_amount', 'add_inventory', 'append', 'extend', 'update', 'add', 'insert', 'pop', 'remove', 'clear',
+            'setdefault', 'sort', 'reverse', '__iadd__')
+
+
+def rule_onceperrow(P) -> RuleResult:
+    from .. import registry, effects
+    res = RuleResult('R-ONCEPERROW')
+    res.exhaustive = True
+    reg = registry.get(P)
+    m = P.module(QE)
+    ROW = Sym('row')
+    RID = _attr(ROW, 'rowid')
+    seen = set()
+    found = 0
+    for fq, cols in reg.tables.items():
+        for name, c in cols.items():
+            if c.kind != 'func' or c.impl.fq in seen:
+                continue
+            fi = c.impl
+            seen.add(fi.fq)
+            paths = Engine(P).paths(fi, {fi.params[0]: ROW})
+
+            def writes(p):
+                out = []
+                for e in p.events:
+                    if e[0] == 'call' and isinstance(e[1], str) and e[1].startswith('row.') and e[1].split('.')[-1] in MUTATORS:
+                        out.append(('mutate', e[1], e[2]))
+                    if e[0] in ('store', 'aug') and isinstance(e[1], T) and contains(e[1], ROW):
+                        out.append((e[0], show(e[1]), e[-1]))
+                return out
+            if not any(w[0] == 'mutate' for p in paths for w in writes(p)):
+                continue
+            found += 1
+            construct = f'column:{reg.table_info[fq].name}.{name}'
+            n0 = len(res.findings)
+            for d in fi.node.decorator_list:
+                e = d.func if isinstance(d, ast.Call) else d
+                if fi.module.dotted(e) in effects.MEMO_DECORATORS:
+                    res.fail(construct, 'onceperrow:memo',
+                             f'{name} updates the running state of its row context and relies on `@{ast.unparse(d)}` to do so only once per '
+                             f'row: the cache is shared by every scan in the process, so another evaluation of the column between two '
+                             f'references in one row (a subquery, another thread) evicts the entry and the row is counted twice', loc(fi))
+            guards = set()
+            for p in paths:
+                ws = writes(p)
+                muts = [w for w in ws if w[0] == 'mutate']
+                # the decision that tells a first evaluation for this row from a repeated one: <row.G> compared with row.rowid
+                first = None
+                for t, outcome in p.decisions:
+                    if isinstance(t, T) and t.op == 'cmp' and t.args[0] in ('==', '!=') and RID in (t.args[1], t.args[2]):
+                        other = t.args[2] if t.args[1] == RID else t.args[1]
+                        if isinstance(other, T) and other.op == 'attr' and other.args[0] == ROW:
+                            guards.add(other.args[1])
+                            first = (outcome == (t.args[0] == '!='))
+                            guard_attr = other
+                if first is None:
+                    if muts:
+                        res.fail(construct, 'onceperrow:unguarded',
+                                 f'{name} updates the running state of its row context (`{muts[0][1]}`) on an evaluation that is not guarded by a '
+                                 f'comparison of a marker on the row context with row.rowid: referenced twice in one row (or by a posting '
+                                 f'that compares equal to the previous one) it counts the row twice or not at all', loc(fi))
+                        break
+                    continue
+                if first:
+                    if len(muts) != 1:
+                        res.fail(construct, f'onceperrow:guard:{guard_attr.args[1]}', f'{name}: on the first evaluation for a row the running '
+                                 f'state must be updated exactly once; it is updated {len(muts)} times', loc(fi))
+                        break
+                    if p.heap.get(guard_attr) != RID:
+                        res.fail(construct, f'onceperrow:mark:{guard_attr.args[1]}', f'{name} updates the running state but does not record the '
+                                 f'row id in row.{guard_attr.args[1]} (it holds `{show(p.heap.get(guard_attr))}`): the next reference in the same '
+                                 f'row updates it again', loc(fi))
+                        break
+                elif muts:
+                    res.fail(construct, f'onceperrow:guard:{guard_attr.args[1]}', f'{name}: with row.{guard_attr.args[1]} equal to the current '
+                             f'row id (the row was already accounted for) the running state is updated again', loc(fi))
+                    break
+                v = p.value
+                if p.outcome == 'return' and isinstance(v, T) and v.op == 'attr' and contains(v, ROW):
+                    res.fail(construct, 'onceperrow:alias', f'{name} returns the running object itself (`{show(v)}`): it is stored in result '
+                             f'rows and keeps changing as the scan goes on; a copy must be returned', loc(fi))
+                    break
+            row = m.classes.get('Row')
+            for ga in sorted(guards):
+                if row is not None and ga not in row.attrs and f'self.{ga}' not in ast.unparse(row.node):
+                    res.fail(construct, f'onceperrow:decl:{ga}', f'row.{ga} is never initialised on the row context', loc(fi))
+            if len(res.findings) == n0:
+                res.ok({'column': name, 'guard': sorted(guards), 'paths': len(paths), 'returns': 'copy'})
+    if found == 0:
+        raise AnalysisError('anchor vanished: no column accessor updates its row context (the running balance)')
+    # every row gets its own row id (decided on the row generators' paths)
+    from .sx_tables import rule_rowgen
+    rg = rule_rowgen(P)
+    rowid = [f for f in rg.findings if f.detail == 'rowgen:rowid']
+    for f in rowid:
+        res.fail(f.construct, 'onceperrow:rowid', f.message + ' (two rows would share an id and the second would not be added to the balance)', f.where)
+    if not rowid:
+        res.ok({'generators': ['EntriesTable.__iter__', 'PostingsTable.__iter__'], 'rowid': 'bumped once per yielded row'})
+    return res
